@@ -267,6 +267,26 @@ Section Life.
       - eapply R_trans; [exact Q|]. eapply R_trans; [apply R_sleep|apply R_await].
     Qed.
 
+    Lemma step_R_ns e s outs o s' outs' :
+      e <> Submit -> step T s e outs = (o, s', outs') -> R s outs s' outs'.
+    Proof.
+      intros Ne. destruct e.
+      - contradiction.
+      - cbn [step]. apply R_query.
+      - cbn [step]. apply do_results_R.
+      - cbn [step]. destruct (s_await s).
+        + intros E. injection E as <- <- <-. apply R_refl.
+        + apply do_results_R.
+      - cbn [step]. destruct (s_await s).
+        + intros E. injection E as <- <- <-. apply R_refl.
+        + destruct (tb_fast_a T _ _).
+          * intros E. injection E as <- <- <-. apply R_refl.
+          * apply await_iter_R.
+      - cbn [step]. destruct (s_await s).
+        + apply await_iter_R.
+        + intros E. injection E as <- <- <-. apply R_refl.
+    Qed.
+
     Lemma step_R e s outs o s' outs' :
       step T s e outs = (o, s', outs') -> R s outs s' outs'.
     Proof.
@@ -537,28 +557,37 @@ Section Life.
   Definition results_answer (s : st) : option Z :=
     if status_eqb (s_status s) DONE then s_results s else None.
 
+  Lemma do_query_not_results s outs o s' outs' x :
+    do_query T s outs = (o, s', outs') -> o <> OResults x.
+  Proof.
+    intros Q. apply do_query_cases in Q as [[_ [-> _]]|[[_ [-> _]]|[_ [res [n [_ Q]]]]]]; try discriminate.
+    cbn zeta in Q. destruct res; destruct Q as [-> _]; discriminate.
+  Qed.
+
+  Lemma poll_not_results fuel : forall s outs o s' outs' x,
+    poll T fuel s outs = (Some o, s', outs') -> o <> OResults x.
+  Proof.
+    induction fuel as [|f IH]; intros s outs o s' outs' x P; cbn [poll] in P.
+    - injection P as <- _ _. discriminate.
+    - destruct (do_query T s outs) as [[o2 s2] outs2] eqn:Q.
+      pose proof (do_query_not_results _ _ _ _ _ x Q) as NQ.
+      destruct o2; try (injection P as <- _ _; exact NQ).
+      destruct (tb_terminal T s0); [discriminate|]. eapply IH; exact P.
+  Qed.
+
   Lemma do_results_spec fast tail s outs x s' outs' :
     (forall h st0, fast h st0 = h && status_eqb st0 DONE) ->
     (forall st0, tail st0 = status_eqb st0 DONE) ->
-    Inv s ->
     do_results T fast tail s outs = (OResults x, s', outs') ->
     spec_terminal (s_status s') = true /\ x = results_answer s'.
   Proof.
-    intros Hf Htl HI. unfold do_results, results_answer. rewrite Hf.
+    intros Hf Htl. unfold do_results, results_answer. rewrite Hf.
     destruct (is_some (s_results s) && status_eqb (s_status s) DONE) eqn:F.
     - intros E. injection E as <- <- <-. apply andb_true_iff in F as [_ F]. rewrite F.
       apply status_eqb_eq in F. rewrite F. auto.
     - destruct (poll T (S (length outs)) s outs) as [[ab s1] outs1] eqn:P.
       destruct ab as [o|].
-      + intros E. injection E as -> <- <-.
-        (* an aborted poll never produces OResults *)
-        exfalso. clear F HI. revert s P. generalize (S (length outs)). intros fuel. revert outs.
-        induction fuel as [|f IH]; intros outs s P; cbn [poll] in P; [discriminate|].
-        destruct (do_query T s outs) as [[o2 s2] outs2] eqn:Q.
-        destruct o2; try (injection P as P _ _; try discriminate).
-        * apply do_query_cases in Q as [[_ [Q _]]|[[_ [Q _]]|[_ [res [n [_ Q]]]]]]; try discriminate.
-          cbn zeta in Q. destruct res; destruct Q as [Q _]; discriminate.
-        * destruct (tb_terminal T s0); [discriminate|]. eapply IH; exact P.
+      + intros E. injection E as -> <- <-. exfalso. eapply poll_not_results; [exact P|reflexivity].
       + intros E. injection E as <- <- <-. rewrite Htl. split; [eapply poll_none; exact P|reflexivity].
   Qed.
 
@@ -567,12 +596,11 @@ Section Life.
     spec_terminal (s_status s') = true /\ x = results_answer s'.
   Proof.
     unfold await_iter, results_answer. destruct (do_query T s outs) as [[o s1] outs1] eqn:Q.
-    destruct o; try (intros E; injection E as E _ _; try discriminate).
-    - apply do_query_cases in Q as [[_ [Q _]]|[[_ [Q _]]|[_ [res [n [_ Q]]]]]]; try discriminate.
-      cbn zeta in Q. destruct res; destruct Q as [Q _]; discriminate.
-    - pose proof (do_query_status _ _ _ _ _ Q) as ->. tb.
-      destruct (spec_terminal (s_status s1)) eqn:Tm; intros E; injection E as <- <- <-; [|discriminate].
-      cbn. auto.
+    pose proof (do_query_not_results _ _ _ _ _ x Q) as NQ.
+    destruct o; try (intros E; injection E as E _ _; try discriminate; congruence).
+    pose proof (do_query_status _ _ _ _ _ Q) as ->. tb.
+    destruct (spec_terminal (s_status s1)) eqn:Tm; intros E; [|discriminate].
+    injection E as <- <- <-. cbn. auto.
   Qed.
 
   (** results() / wait_for_results() (in one piece or resumed at any await point) return only in a
@@ -587,9 +615,9 @@ Section Life.
       destruct E as [_ E]. destruct (status_eqb _ _) in E; discriminate.
     - intros E. exfalso. apply do_query_cases in E as [[_ [E _]]|[[_ [E _]]|[_ [res [n [_ E]]]]]]; try discriminate.
       cbn zeta in E. destruct res; destruct E as [E _]; discriminate.
-    - apply do_results_spec; [apply (ok_fast_b T maxr OK)|apply (ok_tail_b T maxr OK)|exact HI].
+    - apply do_results_spec; [apply (ok_fast_b T maxr OK)|apply (ok_tail_b T maxr OK)].
     - destruct (s_await s); [discriminate|].
-      apply do_results_spec; [apply (ok_fast_a T maxr OK)|apply (ok_tail_a T maxr OK)|exact HI].
+      apply do_results_spec; [apply (ok_fast_a T maxr OK)|apply (ok_tail_a T maxr OK)].
     - destruct (s_await s); [discriminate|]. tb.
       destruct (is_some (s_results s) && status_eqb (s_status s) DONE) eqn:F.
       + intros E. injection E as <- <- <-. apply andb_true_iff in F as [_ F]. unfold results_answer. rewrite F.
@@ -614,6 +642,178 @@ Section Life.
       + exfalso. exact (inv_done s HI Hd Hp Rs).
     - intros p. destruct (status_eqb (s_status s) DONE) eqn:E; [|discriminate].
       intros _. apply status_eqb_eq. exact E.
+  Qed.
+
+
+  (** ---------------------------------------------------------------- reachable states *)
+
+  (** states reachable from a fresh experiment; [reach_g] additionally excludes the one
+      history in which submit_experiment itself returns an experiment that is already DONE *)
+  Inductive reach : st -> list tout -> Prop :=
+  | reach_init outs : reach (init_st T) outs
+  | reach_step s outs e o s' outs' :
+      reach s outs -> step T s e outs = (o, s', outs') -> reach s' outs'.
+
+  Inductive reach_g : st -> list tout -> Prop :=
+  | reachg_init outs : reach_g (init_st T) outs
+  | reachg_step s outs e o s' outs' :
+      reach_g s outs -> step T s e outs = (o, s', outs') -> o <> OSubmitted DONE -> reach_g s' outs'.
+
+  Lemma reach_g_reach s outs : reach_g s outs -> reach s outs.
+  Proof. induction 1; [constructor|econstructor; eassumption]. Qed.
+
+  Lemma reach_inv s outs : reach s outs -> Inv s.
+  Proof. induction 1; [apply inv_init|eapply step_inv; eassumption]. Qed.
+
+  Definition R_polled (a : st) (_ : list tout) (b : st) (_ : list tout) : Prop :=
+    (s_status a = DONE -> s_polled a = true) -> (s_status b = DONE -> s_polled b = true).
+
+  Lemma query_polled s outs o s' outs' : do_query T s outs = (o, s', outs') -> R_polled s outs s' outs'.
+  Proof.
+    unfold R_polled. intros E Hp.
+    apply do_query_cases in E as [[_ [_ [-> _]]]|[[_ [_ [-> _]]]|[G [res [n [_ E]]]]]]; try exact Hp.
+    cbn zeta in E. destruct res as [r|x| |]; destruct E as [_ ->]; try exact Hp.
+    destruct (status_eqb (spec_status (r_status r)) DONE); cbn; reflexivity.
+  Qed.
+
+  (** DONE with missing results can only come from a submission that was answered 'finished' *)
+  Lemma step_polled e s outs o s' outs' :
+    (s_status s = DONE -> s_polled s = true) ->
+    step T s e outs = (o, s', outs') -> o <> OSubmitted DONE ->
+    (s_status s' = DONE -> s_polled s' = true).
+  Proof.
+    intros Hp E Ho. destruct e.
+    1: { apply submit_cases in E as [[_ [_ [-> _]]]|[I0 [res [n [_ E]]]]]; [exact Hp|].
+         cbn zeta in E. destruct res as [r|y| |]; try (destruct E as [_ ->]; cbn; rewrite I0; discriminate).
+         destruct E as [-> E]. cbn. tb. intros Hd. rewrite Hd in E. cbn in E. congruence. }
+    all: revert Hp; change (R_polled s outs s' outs');
+      eapply (step_R_ns R_polled); try exact E; try discriminate; unfold R_polled; intros; auto.
+    all: eapply query_polled; eassumption.
+  Qed.
+
+  Lemma reach_g_polled s outs : reach_g s outs -> s_status s = DONE -> s_polled s = true.
+  Proof.
+    induction 1.
+    - cbn. tb. discriminate.
+    - eapply step_polled; eassumption.
+  Qed.
+
+  (** C17, results clause: blocking and awaiting result calls return the server's results exactly
+      when the final status is DONE and None otherwise *)
+  Theorem results_exactly_when_done s outs e x s' outs' :
+    reach_g s outs -> step T s e outs = (OResults x, s', outs') ->
+    spec_terminal (s_status s') = true /\
+    (s_status s' <> DONE -> x = None) /\
+    (s_status s' = DONE ->
+       exists r, s_last s' = Some r /\ spec_status (r_status r) = DONE /\ x = Some (r_payload r)).
+  Proof.
+    intros Hr E.
+    pose proof (reach_inv _ _ (reach_g_reach _ _ Hr)) as HI.
+    destruct (step_results_spec _ _ _ _ _ _ HI E) as [Ht ->].
+    assert (Hr' : reach_g s' outs') by (eapply reachg_step; [exact Hr|exact E|discriminate]).
+    pose proof (reach_inv _ _ (reach_g_reach _ _ Hr')) as HI'.
+    destruct (results_answer_payload s' HI') as [A [B _]].
+    repeat split; auto. intros Hd. apply B; [exact Hd|]. eapply reach_g_polled; eassumption.
+  Qed.
+
+  (** without the guard: still never a payload unless DONE, and a payload is the server's *)
+  Theorem results_sound s outs e x s' outs' :
+    reach s outs -> step T s e outs = (OResults x, s', outs') ->
+    spec_terminal (s_status s') = true /\
+    (s_status s' <> DONE -> x = None) /\
+    (forall p, x = Some p -> s_status s' = DONE /\ exists r, s_last s' = Some r /\ r_payload r = p).
+  Proof.
+    intros Hr E. pose proof (reach_inv _ _ Hr) as HI.
+    destruct (step_results_spec _ _ _ _ _ _ HI E) as [Ht ->].
+    pose proof (step_inv _ _ _ _ _ _ HI E) as HI'.
+    destruct (results_answer_payload s' HI') as [A [_ C]].
+    repeat split; auto.
+    - eapply C; eassumption.
+    - unfold results_answer in H. destruct (status_eqb (s_status s') DONE); [|discriminate].
+      destruct (inv_results s' HI' p H) as [_ [_ Hx]]. exact Hx.
+  Qed.
+
+  (** the same on traces of whole client scripts *)
+  Theorem run_results evs : forall s outs tr sf outsf,
+    reach_g s outs -> run T s evs outs = (tr, sf, outsf) ->
+    (forall st0 n, ~ In (OSubmitted DONE, st0, n) tr) ->
+    reach_g sf outsf /\
+    Forall (fun en : tentry => forall x, fst (fst en) = OResults x ->
+              spec_terminal (snd (fst en)) = true /\
+              (snd (fst en) <> DONE -> x = None) /\ (snd (fst en) = DONE -> x <> None)) tr.
+  Proof.
+    induction evs as [|e es IH]; intros s outs tr sf outsf Hr E Hn; cbn [run] in E.
+    - injection E as <- <- <-. split; [exact Hr|constructor].
+    - destruct (step T s e outs) as [[o s1] outs1] eqn:S1.
+      destruct (run T s1 es outs1) as [[tr1 sf1] outsf1] eqn:R1. injection E as <- <- <-.
+      assert (Ho : o <> OSubmitted DONE).
+      { intros ->. apply (Hn (s_status s1) (length (s_log s1))). left. reflexivity. }
+      assert (Hr1 : reach_g s1 outs1) by (eapply reachg_step; eassumption).
+      destruct (IH _ _ _ _ _ Hr1 R1) as [Hf Hall].
+      { intros st0 n Hin. apply (Hn st0 n). right. exact Hin. }
+      split; [exact Hf|]. constructor; [|exact Hall].
+      cbn. intros x ->. destruct (results_exactly_when_done _ _ _ _ _ _ Hr S1) as [A [B C]].
+      repeat split; auto. intros Hd. destruct (C Hd) as [r [_ [_ ->]]]. discriminate.
+  Qed.
+
+  (** ---------------------------------------------------------------- before submission *)
+
+  Definition client_call (e : ev) : bool :=
+    match e with Query | Results | Await | AwaitBegin => true | _ => false end.
+
+  Theorem step_before_submit e s outs :
+    s_status s = INITIALIZING -> s_await s = false -> client_call e = true ->
+    step T s e outs = (ORefused, s, outs).
+  Proof.
+    intros I0 Aw Hc.
+    assert (Q : do_query T s outs = (ORefused, s, outs)).
+    { unfold do_query. tb. rewrite I0. reflexivity. }
+    assert (P : poll T (S (length outs)) s outs = (Some ORefused, s, outs)).
+    { cbn [poll]. rewrite Q. reflexivity. }
+    destruct e; try discriminate; cbn [step]; rewrite ?Aw; tb.
+    - exact Q.
+    - unfold do_results. tb. rewrite I0, andb_false_r, P. reflexivity.
+    - unfold do_results. tb. rewrite I0, andb_false_r, P. reflexivity.
+    - rewrite I0, andb_false_r. unfold await_iter. rewrite Q. destruct s; cbn in *. subst. reflexivity.
+  Qed.
+
+  Theorem run_before_submit evs outs :
+    forallb client_call evs = true ->
+    run T (init_st T) evs outs = (map (fun _ => (ORefused, INITIALIZING, 0%nat)) evs, init_st T, outs).
+  Proof.
+    induction evs as [|e es IH]; intros H; cbn [run map]; [reflexivity|].
+    cbn [forallb] in H. apply andb_true_iff in H as [H1 H2].
+    rewrite (step_before_submit e (init_st T) outs); [|cbn; tb; reflexivity|reflexivity|exact H1].
+    rewrite (IH H2). cbn. tb. reflexivity.
+  Qed.
+
+  (** ---------------------------------------------------------------- the poll fuel is enough *)
+
+  Lemma poll_fuel fuel : forall s outs ab s' outs',
+    (length outs < fuel)%nat -> poll T fuel s outs = (ab, s', outs') -> ab <> Some OFuel.
+  Proof.
+    induction fuel as [|f IH]; intros s outs ab s' outs' Hl P; [lia|]. cbn [poll] in P.
+    destruct (do_query T s outs) as [[o s1] outs1] eqn:Q.
+    assert (NF : o <> OFuel).
+    { apply do_query_cases in Q as [[_ [-> _]]|[[_ [-> _]]|[_ [res [n [_ Q]]]]]]; try discriminate.
+      cbn zeta in Q. destruct res; destruct Q as [-> _]; discriminate. }
+    destruct o; try (injection P as <- _ _; congruence).
+    pose proof (do_query_status _ _ _ _ _ Q) as ->. tbin P.
+    destruct (spec_terminal (s_status s1)) eqn:Tm; [injection P as <- _ _; discriminate|].
+    eapply IH; [|exact P].
+    apply do_query_cases in Q as [[_ [Q _]]|[[Ht [_ [-> _]]]|[_ [res [n [H Q]]]]]]; try discriminate.
+    - congruence.
+    - cbn zeta in Q. destruct res as [r|y| |]; destruct Q as [Q _]; try discriminate.
+      destruct (http_request_consumes _ _ _ _ H) as [_ Hc]. specialize (Hc r eq_refl). lia.
+  Qed.
+
+  Theorem results_never_out_of_fuel fast tail s outs o s' outs' :
+    do_results T fast tail s outs = (o, s', outs') -> o <> OFuel.
+  Proof.
+    unfold do_results. destruct (fast _ _); [intros E; injection E as <- _ _; discriminate|].
+    destruct (poll T (S (length outs)) s outs) as [[ab s1] outs1] eqn:P.
+    pose proof (poll_fuel _ _ _ _ _ _ (Nat.lt_succ_diag_r _) P) as NF.
+    destruct ab; intros E; injection E as <- _ _; congruence.
   Qed.
 
 End Life.
